@@ -15,6 +15,7 @@ func init() {
 func checkC25(r *Run) {
 	r.Explain = "(R1+) useragent.Parse accepts only non-empty, validated strings that the pattern matches entirely and whose version is valid semver, unconditionally; (R3+) no message process method is called except through the gated dispatch of onMessageEvent, and every message type's Handle only queues itself (recordMessageEvent(self, mc)) without any daemon operation before the gate; C25: (R1) IntroductionMessage.Verify succeeds only with mirror != ours, protocol version >= minimum, extra data carrying this network's blockchain pubkey (copied from Extra[:33] and compared), valid verification parameters, a parseable user agent — and rejects for nothing else; (R2) a connection is marked introduced only from IntroductionMessage.process after Verify succeeded; (R3) before introduction only Introduction, Disconnect and GivePeers messages are dispatched to their handler, and asyncMessage.process is called from nowhere else; (R4) every slice/index of the untrusted Extra bytes is in bounds on every path."
 	r.NotDec = "behaviour of the user-agent parser itself; network-level sequencing"
+	ruleNoCrossedConfig(r, "C25-R0")
 	// "valid user agent" (R1): what useragent.Parse accepts — non-empty, charset/length validated, the whole string
 	// matches the user-agent pattern, and the version part is valid semver, unconditionally
 	const M = "regexp.Regexp.FindAllStringSubmatch(util/useragent.re, $0, -1)"
@@ -148,6 +149,7 @@ func checkC25(r *Run) {
 func checkC33(r *Run) {
 	r.Explain = "(R1+) the executed block's body is bound to the signed header: verifyBlockHeader (on the execution path for every non-genesis block) requires BodyHash and PrevHash to match, the signature is checked over the header hash; C33: (R1) GiveBlocksMessage.process executes blocks only through the signature-checking Visor path, skips blocks at or below the head, and stops at the first failure; (R2) after progress it requests the next blocks; announce/get handlers request blocks above the head; (R3) gap-freeness is C04-R3 (seq == head+1)."
 	r.NotDec = "convergence for concrete delivery orders (a history property)"
+	ruleNoCrossedConfig(r, "C33-R0")
 	fn := r.fn("C33-R1", "daemon.GiveBlocksMessage.process")
 	if fn == nil {
 		return
